@@ -341,8 +341,9 @@ fn build_respan_block_request<E: FieldElement<BaseField = Felt>>(
         + alphas[2].mul_base(addr_nxt - ONE)
         + alphas[3].mul_base(ZERO);
 
-    let state = &main_trace.chiplet_hasher_state(row - 2)[CAPACITY_LEN..];
-    let state_nxt = &main_trace.chiplet_hasher_state(row - 1)[CAPACITY_LEN..];
+    let hasher_row = addr_to_row_index(addr_nxt - ONE);
+    let state = &main_trace.chiplet_hasher_state(hasher_row)[CAPACITY_LEN..];
+    let state_nxt = &main_trace.chiplet_hasher_state(hasher_row + 1)[CAPACITY_LEN..];
 
     header + build_value(&alphas[8..16], state_nxt) - build_value(&alphas[8..16], state)
 }
